@@ -248,6 +248,13 @@ def run_case(case, ctx):
             if not any(mask):
                 mask[0] = True
         out = [(cfg.seed_gen(rng, y0[j], j) if cfg.seed_gen else rand_like(rng, todense(y0[j]))) if mask[j] else None for j in range(nout)]
+        if partial:
+            # matrix-valued seeds with only some columns set (one mode / one load case seeded, the others not)
+            for j, w in enumerate(out):
+                if isinstance(w, np.ndarray) and w.ndim == 2 and w.shape[1] > 1 and rng.random() < 0.6:
+                    keep = rng.integers(0, 2, w.shape[1]).astype(bool)
+                    keep[int(rng.integers(w.shape[1]))] = True
+                    w[:, ~keep] = 0
         # scalar seeds are sometimes handed over as (mutable) 0-d arrays
         return [np.array(w) if (w is not None and np.ndim(w) == 0 and not hasattr(w, "todense") and rng.random() < 0.5) else w for w in out]
 
